@@ -88,6 +88,7 @@ pub enum Answer {
 pub struct HEngine {
     answer: Cell<Answer>,
     filter: Cell<u8>, // 0 admit, 1 reject, 2 throttled
+    forbid_enqueue: Cell<bool>,
     loads: Cell<usize>,
     enqueued: Cell<usize>,
     deleted: Cell<usize>,
@@ -115,6 +116,9 @@ impl Engine<u64, u64, SProps> for HEngine {
         }
     }
     fn enqueue(&self, piece: PieceRef<u64, u64, SProps>, _estimated_size: usize) {
+        // in the reject / throttle harnesses reaching the write queue at all is the violation: fail right here (the rest of
+        // the admit path - keeper bookkeeping, drop glue of the queued piece - is expensive and irrelevant then)
+        assert!(!self.forbid_enqueue.get(), "C12: rejected / throttled entry was written");
         self.last_enqueued.set((*piece.key(), *piece.value()));
         // the write queue keeps its PieceRef until the write completes: the harness leaks it (its Drop never runs, so the
         // keeper entry stays) instead of storing it - storing it in a RefCell'd array made the admit path 10 GB
@@ -165,6 +169,7 @@ fn mk_store() -> (S, Arc<HEngine>) {
     let engine = Arc::new(HEngine {
         answer: Cell::new(Answer::Miss),
         filter: Cell::new(0),
+        forbid_enqueue: Cell::new(false),
         loads: Cell::new(0),
         enqueued: Cell::new(0),
         deleted: Cell::new(0),
@@ -180,6 +185,9 @@ fn mk_store() -> (S, Arc<HEngine>) {
             compression: Compression::None,
             spawner: placeholder_spawner(),
             metrics: Arc::new(Metrics::noop()),
+            // the native replay builds the crate as a test (cfg(test)): the struct then has this extra field
+            #[cfg(any(test, feature = "test_utils"))]
+            load_throttle_switch: Default::default(),
         }),
     };
     (store, engine)
@@ -201,7 +209,8 @@ fn answer_of(t: u8) -> Answer {
 /// `load(q)` yields a value only if the decoded key equals q, and then exactly the decoded value; an error stays an error.
 fn l1(kind: u8) {
     let (store, engine) = mk_store();
-    let q: u64 = kani::any();
+    // literal requested key (a symbolic key is a symbolic hash for the keeper's table); the disk answer's key is symbolic
+    let q: u64 = 16;
     let a = answer_of(kind);
     engine.answer.set(a);
     let r = exec::block_on(store.load(&q), 4);
@@ -274,7 +283,9 @@ verif_harness! { c01_store_load_queue_first_other, 6, { l2(16, 32, 3); } }
 fn e1(f: u8, force: bool) {
     let (store, engine) = mk_store();
     engine.filter.set(f);
-    let k: u64 = kani::any();
+    engine.forbid_enqueue.set(!force && f != 0);
+    // literal key (a symbolic key means a symbolic hash, i.e. a symbolic probe position in the keeper's hash table), symbolic value
+    let k: u64 = 16;
     let v: u64 = kani::any();
     let piece = foyer_memory::verif_export::verif_piece(k, v, SProps, k >> 4, 1);
     store.enqueue(piece, force);
